@@ -26,13 +26,13 @@ ASSUMPTIONS = [
 ]
 TIMEOUT = {"quick": 400, "thorough": 2400}
 REQUIRED = {"ei:z<-40": 20, "ei:-40<=z<-3": 50, "ei:-3<=z<0": 50, "ei:z>=0": 20, "ei:switch_pairs": 10,
-            "post:opt_func_gradient": 200, "gradient_checks": 200, "optimiser_iterations": 30, "proposals:bfgs": 15, "proposals:diffev": 6, "default_optimiser_pairs": 8}
+            "post:opt_func_gradient": 200, "gradient_checks": 200, "optimiser_iterations": 30, "proposals:bfgs": 15, "proposals:diffev": 6, "default_optimiser_pairs": 8, "proposals:on_a_bound": 30}
 
 
 def jobs(tier, seed):
     n_jobs = 16 if tier == "quick" else 32
     return [{"name": f"acq-{j}", "seed": seed, "j": j, "n_gps": 30 if tier == "quick" else 150,
-             "n_opt": 3 if tier == "quick" else 12, "n_pairs": 1 if tier == "quick" else 4} for j in range(n_jobs)]
+             "n_opt": 3 if tier == "quick" else 12, "n_pairs": 1 if tier == "quick" else 4, "n_face": 12 if tier == "quick" else 60} for j in range(n_jobs)]
 
 
 def ei_reference(mu, sig, ymax):
@@ -258,6 +258,11 @@ def run_job(job, rec):
         wid = 10.0 ** rng.uniform(-1, 2, size=d)
         bounds = [(float(a), float(a + w)) for a, w in zip(lo, wid)]
         peak = lo + wid * rng.uniform(0.2, 0.8, size=d)
+        if rng.random() < 0.4:
+            # the objective keeps rising towards (and beyond) a face of the box: the best proposal sits on the bound itself
+            side = rng.choice([-1.0, 1.0], size=d)
+            peak = np.where(side > 0, lo + wid * rng.uniform(1.0, 1.6, size=d), lo - wid * rng.uniform(0.0, 0.6, size=d))
+            rec.count("optimiser_cases:maximum_on_a_face")
         ysc = 10.0 ** rng.uniform(-1, 1)
 
         def objective(p):
@@ -294,7 +299,7 @@ def run_job(job, rec):
                 rec.violation("raised", f"propose_evaluation raised {prop!r}", octx)
                 break
             pv = np.atleast_1d(np.asarray(prop, float))
-            inside = pv.shape == (d,) and all(b[0] - 1e-12 * abs(b[1] - b[0]) <= v <= b[1] + 1e-12 * abs(b[1] - b[0]) for v, b in zip(pv, bounds))
+            inside = pv.shape == (d,) and all(b[0] <= v <= b[1] for v, b in zip(pv, bounds))    # exactly: one float beyond a bound is outside
             rec.check(inside, "proposal-outside-bounds", lambda: f"proposed evaluation {prop!r} is outside the search bounds {bounds}", octx)
             if not inside:
                 break
@@ -326,6 +331,38 @@ def run_job(job, rec):
                       "the data errors held by the fitted model are not those supplied", octx)
             rec.count("optimiser_iterations")
             rec.case(digest("opt", x0, y0, opt_name, acq_cls.__name__, it))
+
+    # ---------------------------------------------------------------- proposals that land on a face of the box
+    for s_ in range(job.get("n_face", 12)):
+        d = int(rng.choice([1, 1, 2]))
+        # decimal bounds as a user types them: both ends are decimal literals (the upper one is not 'lower + width' in floating point)
+        lo = np.round(rng.normal(size=d) * 10.0 ** rng.uniform(-1, 2), 1)
+        wid = np.round(10.0 ** rng.uniform(-0.5, 1.5, size=d), 1) + 0.1
+        bounds = [(float(a), float(np.round(a + w, 1))) for a, w in zip(lo, wid)]
+        up = np.array([b[1] for b in bounds])
+        lo_ = np.array([b[0] for b in bounds])
+        x0 = lo_ + (up - lo_) * rng.uniform(0.05, 0.6, size=(4, d))
+        slope = rng.uniform(0.5, 2.0, size=d) / (up - lo_)
+        y0 = np.array([float(slope @ (p_ - lo_)) for p_ in x0])       # rises towards the upper corner
+        acq_cls = acq_classes[s_ % 3]
+        fctx = {"face_case": s_, "d": d, "bounds": bounds, "acquisition": acq_cls.__name__}
+        rec.context = fctx
+        np.random.seed(int(rng.integers(2**31)))
+        opt = guarded(GpOptimiser, x0.copy(), y0.copy(), bounds=bounds, y_err=np.full(4, 0.01), acquisition=acq_cls, optimizer="bfgs")
+        if isinstance(opt, Raised):
+            rec.violation("raised", f"GpOptimiser construction raised {opt!r}", fctx)
+            continue
+        prop = guarded(opt.propose_evaluation)
+        rec.count("proposals:bfgs")
+        if isinstance(prop, Raised):
+            rec.violation("raised", f"propose_evaluation raised {prop!r}", fctx)
+            continue
+        pv = np.atleast_1d(np.asarray(prop, float))
+        if pv.shape == (d,) and np.any((pv == up) | (pv == lo_)):
+            rec.count("proposals:on_a_bound")
+        rec.case(digest("face", bounds, acq_cls.__name__), nontrivial=True)
+        rec.check(pv.shape == (d,) and bool(np.all((pv >= lo_) & (pv <= up))), "proposal-outside-bounds",
+                  lambda: f"proposed evaluation {pv!r} is outside the search bounds {bounds} (by {np.maximum(pv - up, lo_ - pv).max():.3g})", fctx)
 
     # ---------------------------------------------------------------- two optimisers built from the defaults, used in alternation
     for s in range(job.get("n_pairs", 2)):
